@@ -4,7 +4,7 @@
    event list = an arbitrary schedule of any number of callers, the write loop, the read loop and
    Connect, with arbitrary inbound frames (any reply order, any unsolicited frames with any ids). *)
 From Coq Require Import NArith List Bool.
-From LLRP Require Import Client.Types Client.Model Client.InvCore Client.C03Proofs.
+From LLRP Require Import Client.Types Client.Model Client.InvCore Client.C03Proofs Client.C05Proofs Client.C03Zero.
 Import ListNotations.
 Open Scope N_scope.
 
@@ -139,3 +139,45 @@ Example C03_example :
   acked s = [77] /\
   length (peer_sent s) = 6%nat.
 Proof. vm_compute. repeat split; reflexivity. Qed.
+
+(* ---- nobody is handed a reply that was never sent ----
+   send() takes whatever comes out of its reply channel as the reply; a CLOSED channel yields the zero Message with a nil
+   error — SendMessage would return (type 0, no payload, nil) for a request the reader never answered. In the model that
+   outcome is the result [RZero]; the only transition producing it is the clean-up closure of ANOTHER request carrying the
+   same id. With pairwise distinct ids (no caller-chosen ids — impossible through the exported API — and at most 2^32
+   accepted requests, C05_ids_pairwise_distinct) it never happens, for any schedule and any faults: failing Writes, the
+   write loop's exit, Close, EOF and cancellations included. Every success a caller sees is therefore an [ROk] result, i.e.
+   (C03_result_is_delivery) a frame the peer sent with the id of that caller's request. *)
+Theorem C03_no_fabricated_reply : forall cfg evs c r,
+  no_preset evs -> N.of_nat (length (assigned (run cfg evs))) <= two32 ->
+  caller_phase (run cfg evs) c <> Some (Done r RZero).
+Proof. exact no_fabricated_reply. Qed.
+Print Assumptions C03_no_fabricated_reply.
+
+(* the fault the clause is most exposed to, stated for ANY state: a Write that fails (after any number of bytes) touches no
+   caller, no await entry and delivers nothing — the senders waiting for replies are woken later, through c.done, with an
+   error. (Check family wfail: the Write of a request whose sender already waits blocks and then fails, read side healthy.) *)
+Theorem C03_write_failure_wakes_nobody : forall cfg s k,
+  callers (step cfg s (WriteFail k)) = callers s /\ awaiting (step cfg s (WriteFail k)) = awaiting s /\
+  delivered (step cfg s (WriteFail k)) = delivered s.
+Proof. exact write_failure_wakes_nobody. Qed.
+Print Assumptions C03_write_failure_wakes_nobody.
+
+(* non-vacuity: caller 1's request is accepted (it holds its token, id 0), the header Write fails after 4 bytes; Connect
+   sees the write loop's error and closes the client; the caller then returns the closed-client error, the await map is
+   empty again and nothing was delivered *)
+Definition write_fails_evs : list event :=
+  [ConnStart; ConnFirst ren_ok HBNone; ConnReady; RCheck;
+   Submit 1 req1; PassGate 1; WDefault; WAccept 1; WriteFail 4; ConnSelect true; SeeClosed 1].
+Example C03_write_failure_example :
+  let s := run cfg_fixed write_fails_evs in
+  caller_phase (run cfg_fixed (firstn 9%nat write_fails_evs)) 1 = Some (HasToken req1 0) /\
+  writer s = WDead /\ closed s = true /\
+  caller_result s 1 = Some RErrClosed /\ awaiting s = [] /\ delivered s = [] /\
+  no_preset write_fails_evs.
+Proof.
+  cbv zeta. split; [vm_compute; reflexivity|]. split; [vm_compute; reflexivity|]. split; [vm_compute; reflexivity|].
+  split; [vm_compute; reflexivity|]. split; [vm_compute; reflexivity|]. split; [vm_compute; reflexivity|].
+  unfold no_preset, write_fails_evs.
+  repeat (apply Forall_cons; [first [exact I | reflexivity] |]). apply Forall_nil.
+Qed.
